@@ -359,16 +359,22 @@ def imgFold (op : Rat → Rat → Rat) (img : Img) : Rat :=
 def ratMin (a b : Rat) : Rat := if a ≤ b then a else b
 def ratMax (a b : Rat) : Rat := if a ≤ b then b else a
 
-/-- `cmax` attribute (`int(...)` truncates towards zero; the argument is non-negative) -/
-def cmax (x : Input) : Int :=
-  let minL := imgFold ratMin x.L; let maxL := imgFold ratMax x.L
-  let minR := imgFold ratMin x.R; let maxR := imgFold ratMax x.R
-  let ww : Rat := ((x.w * x.w : Nat) : Rat)
-  match x.meas with
-  | .sad => (ratMax (ratAbs (maxL - minR)) (ratAbs (maxR - minL)) * ww).floor
-  | .ssd => (ratMax (ratAbs (maxL - minR) * ratAbs (maxL - minR)) (ratAbs (maxR - minL) * ratAbs (maxR - minL)) * ww).floor
-  | .census => (x.w * x.w : Nat)
-  | .zncc => 1
+/-- `int(x)` (truncation of a non-negative number) or, when `up`, `int(np.ceil(x))` -/
+def roundCmax (up : Bool) (q : Rat) : Int := if up then Rat.ceil q else Rat.floor q
+
+/-- the `cmax` expressions of the three classes, from the extrema of the selected bands and the window size.
+    `up = false` is the code as it stands (`int(...)`); `up = true` is the code after the proposed fix
+    C02-cmax-ceil (`int(np.ceil(...))`); the translator reads which one the source uses. -/
+def cmaxOf (up : Bool) (m : Measure) (maxL minL maxR minR : Rat) (w : Nat) : Int :=
+  match m with
+  | .sad => roundCmax up ((ratMax (ratAbs (maxL - minR)) (ratAbs (maxR - minL))) * (((w : Nat) : Rat) * ((w : Nat) : Rat)))
+  | .ssd => roundCmax up ((ratMax ((ratAbs (maxL - minR)) * (ratAbs (maxL - minR))) ((ratAbs (maxR - minL)) * (ratAbs (maxR - minL)))) * (((w : Nat) : Rat) * ((w : Nat) : Rat)))
+  | .census => roundCmax false (((w : Nat) : Rat) * ((w : Nat) : Rat))
+  | .zncc => (1 : Int)
+
+/-- `cmax` attribute: `np.amin` / `np.amax` of the two selected bands fed to `cmaxOf` -/
+def cmax (up : Bool) (x : Input) : Int :=
+  cmaxOf up x.meas (imgFold ratMax x.L) (imgFold ratMin x.L) (imgFold ratMax x.R) (imgFold ratMin x.R) x.w
 
 /-! ## Domain of the model (`WF`) -/
 
@@ -484,10 +490,10 @@ def specVolume (x : Input) : Volume :=
   fun r c j => specCell x r c (gmin * (x.sp : Int) + j)
 
 /-- `cmax_bound`: every numeric cost is `≤ cmax` (sad/ssd/census); for zncc `cov² ≤ vv` (i.e. `|zncc| ≤ 1`) -/
-def cellWithinCmax (x : Input) (c : Cell) : Bool :=
+def cellWithinCmax (up : Bool) (x : Input) (c : Cell) : Bool :=
   match c with
   | .nan => true
-  | .num q => decide (q ≤ (cmax x : Rat))
+  | .num q => decide (q ≤ (cmax up x : Rat))
   | .zn cov vv => decide (cov * cov ≤ vv)
 
 /-- the variance threshold of `compute_std_raster` never fires on a non-zero variance
